@@ -63,6 +63,8 @@ type Ctx struct {
 	identMemo     map[*ssa.Function]int
 	inlineHelpers bool
 	ftMemo        map[*types.Named][]*ssa.Function
+	faMemo        map[*ssa.Parameter][]*ssa.Function
+	extraCut      map[edge]bool                  // edges excluded for the current top-level guard query (a case split on a φ)
 	boolOrigins   map[string]boolOrigin          // calleeEnvV: test results handed to callees as boolean arguments, by path
 	nameHandedOn  bool                           // calleeEnvV: a call result the callee hands on is named after the caller-side call value
 	phiEdgeLive   func(phi *ssa.Phi, i int) bool // optional: restricts φ edges when rendering canonical forms
